@@ -119,6 +119,20 @@ class B:
                     changed = True
         return [n for n, it in insts.items() if it.D in ds]
 
+    def pick_force_names(self, cid, kmax=3):
+        """names to force: often the same task under two namespaces of the chain (mountings of one pipeline)"""
+        r = self.r
+        insts = self.insts(cid)
+        names = list(insts)
+        by = {}
+        for n, it in insts.items():
+            by.setdefault(it.slug, []).append(n)
+        sib = [v for v in by.values() if len(v) >= 2]
+        if sib and r.random() < 0.5:
+            g = r.choice(sib)
+            return r.sample(g, min(len(g), r.choice([2, 2, 3])))
+        return r.sample(names, min(len(names), r.choice(list(range(1, kmax + 1)))))
+
     def delete_ok(self, cid, names, live):
         """delete_data is generated only when no other live chain of this process may hold a *reference* value
         (directory path, lazy reader) of a result that would be deleted: such a reference dies with the data, and what
@@ -419,7 +433,7 @@ def _mbuild(b, r):
 def gen_c07(r, knobs=None):
     """force-heavy histories: Task.force / Chain.force with every flag combination on arbitrary task sets, stores with
     results present or missing, arbitrary later request orders, other chains and processes on the same store."""
-    kn = {'n_roots': (1, 3), 'n_pipes': (1, 4), 'classes_per_pipe': (1, 4), 'p_twin': 0.35}
+    kn = {'n_roots': (2, 3), 'n_pipes': (1, 4), 'classes_per_pipe': (1, 4), 'p_twin': 0.45}
     kn.update(knobs or {})
     world = gen.gen_world(r, kn)
     b = B(world, r)
@@ -433,7 +447,7 @@ def gen_c07(r, knobs=None):
     for pi in range(nproc):
         b.proc(hs=r.choice([0, 1]))
         root = r.randrange(len(world['roots']))
-        if not name_mode and len(world['roots']) >= 2 and r.random() < 0.3:
+        if not name_mode and len(world['roots']) >= 2 and r.random() < 0.4:
             # the chains of this process are members of a MultiChain (shared task objects under Chain.force)
             live = _mbuild(b, r)
         elif name_mode:
@@ -454,7 +468,11 @@ def gen_c07(r, knobs=None):
                 n = r.choice(names)
                 b.op(op='tforce', cid=cid, task=n, name=n, delete=r.random() < 0.4 and b.delete_ok(cid, [n], live))
             elif t < 0.45:
-                ns = r.sample(names, min(len(names), r.choice([1, 1, 2, 3])))
+                ns = b.pick_force_names(cid)
+                if len(ns) >= 2 and r.random() < 0.4:
+                    # the same, as two separate calls
+                    b.op(op='cforce', cid=cid, tasks=ns[:1], names=ns[:1], recompute=False, delete=False)
+                    ns = ns[1:]
                 b.op(op='cforce', cid=cid, tasks=ns, names=ns, recompute=r.random() < 0.45 and not faulty,
                      delete=r.random() < 0.4 and b.delete_ok(cid, ns, live), single_as_str=r.random() < 0.5, as_objects=r.random() < 0.25)
             elif t < 0.8:
@@ -550,7 +568,7 @@ def gen_c02(r, knobs=None):
 def gen_c13(r, knobs=None):
     """MultiChains over 2-4 roots with overlapping pipelines and differing parameters/contexts; requests and forces
     interleaved across members; standalone chains of the same roots alongside; restarts."""
-    kn = {'n_roots': (2, 4), 'n_pipes': (1, 4), 'p_override': 0.5}
+    kn = {'n_roots': (2, 4), 'n_pipes': (1, 4), 'p_override': 0.5, 'p_twin': 0.4}
     kn.update(knobs or {})
     world = gen.gen_world(r, kn)
     b = B(world, r)
@@ -594,8 +612,10 @@ def gen_c13(r, knobs=None):
             elif t < 0.93:
                 # forcing through one member chain (graph queries on a chain that holds shared task objects)
                 cid = r.choice(live)
-                names = b.names(cid)
-                ns = r.sample(names, min(len(names), r.choice([1, 2])))
+                ns = b.pick_force_names(cid, 2)
+                if len(ns) >= 2 and r.random() < 0.4:
+                    b.op(op='cforce', cid=cid, tasks=ns[:1], names=ns[:1], recompute=False, delete=False)
+                    ns = ns[1:]
                 b.op(op='cforce', cid=cid, tasks=ns, names=ns, recompute=r.random() < 0.3 and not faulty, delete=False)
             else:
                 _inspect(b, r.choice(live), ['has_data', 'flags', 'data_path'])
